@@ -101,6 +101,7 @@ class Flow:
         self.ret_ty: Optional[Ty] = None
         self.stores: Dict[Tuple[str, Tuple[str, ...]], Set[AV]] = {}   # stores through param/global roots
         self.store_nodes: List[Tuple[AV, str, Set[AV], ast.AST]] = []   # (object, field, values, node)
+        self._store_keys: Set = set()
         self.global_writes: List[ast.AST] = []
         self.unresolved: List[CallSite] = []
         self._callsite_index: Dict[Tuple[int, str], CallSite] = {}
@@ -168,7 +169,10 @@ class Flow:
 
     def store(self, objs: Iterable[AV], fld: str, vals: Set[AV], node: ast.AST):
         for o in objs:
-            self.store_nodes.append((o, fld, set(vals), node))
+            sk = (o, fld, frozenset(vals), id(node))
+            if sk not in self._store_keys:            # a summary is a set: the same store replayed through recursive call chains is recorded once
+                self._store_keys.add(sk)
+                self.store_nodes.append((o, fld, set(vals), node))
             k = (o.root, o.path + (fld,))
             tgt = self.prog.heap if o.kind == "fresh" else self.stores
             cur = tgt.setdefault(k, set())
@@ -826,7 +830,7 @@ class Flow:
             if m.av.kind == "param":
                 tg = self._subst(cf, m.av, b)
                 self.mutate(tg, m.how, cs.node, via=(m.via or ()) + (m.func.qualname,) if not m.via else m.via, func=self.f)
-        for (o, fld, vals, node) in cf.store_nodes:
+        for (o, fld, vals, node) in list(cf.store_nodes):
             if o.kind == "param":
                 objs = self._subst(cf, o, b)
                 vv: Set[AV] = set()
@@ -1246,6 +1250,7 @@ class Program:
                     for k, fl in self._flows.items()}
             for k, fl in list(self._flows.items()):
                 fl.store_nodes = []
+                fl._store_keys = set()
                 fl.run()
             snap2 = {k: (len(fl.mutations), len(fl.returns), sum(len(v) for v in fl.stores.values()), len(fl.store_nodes))
                      for k, fl in self._flows.items()}
